@@ -10,6 +10,7 @@ package main
 import (
 	"encoding/json"
 	"fmt"
+	"github.com/antonmedv/expr/vm"
 	"math/rand"
 	"os"
 	"reflect"
@@ -1047,6 +1048,7 @@ func runC16() {
 	for i := 0; i < 8 && i < len(cases); i++ {
 		rep.Samples = append(rep.Samples, cases[(i*7919+13)%len(cases)])
 	}
+	c16ReusedVM(rep)
 	header := "From Coq Require Import ZArith List String.\nRequire Import X.Base.Num X.Base.Value X.Ty.Types X.Ty.TypesTable X.Corr.CorrC16.\nImport ListNotations.\nOpen Scope string_scope.\n" +
 		"Definition te : tenv := " + coqTenv() + ".\n" + defs.String()
 	var en []string
@@ -1056,4 +1058,81 @@ func runC16() {
 	header += "Definition envs : list envty := " + coqList(en) + ".\n"
 	rep.writeShards("cases_c16", header, "c16case", fmt.Sprintf("c16_mismatches te envs %s %d%%nat", c16NameList(c16Keys), c16Depth), cases)
 	rep.write()
+}
+
+// An accepted function / method name resolves on THE environment of the run: also on a caller-owned vm.VM whose earlier run
+// failed inside a loop after calling the same name on ANOTHER environment value (of the same or of another type).
+type C16CallA struct {
+	Xs []int
+	K  int
+}
+
+func (e C16CallA) Weight(i int) int { return e.K * i }
+
+type C16CallB struct {
+	Xs []int
+	K  int
+}
+
+func (e C16CallB) Weight(i int) int { return e.K + i }
+
+func c16ReusedVM(rep *Report) {
+	type step struct {
+		env  interface{}
+		note string
+	}
+	fnA := func(i int) int { return 10 * i }
+	fnB := func(i int) int { return 1000 + i }
+	histories := []struct {
+		name  string
+		src   string
+		steps []step
+	}{
+		{"method of two struct types", "map(Xs, {Weight(#) + 100 % #})", []step{
+			{C16CallA{Xs: []int{1, 2, 0}, K: 10}, "fails inside the loop (100 % 0) after Weight was called"},
+			{C16CallB{Xs: []int{1, 2, 3}, K: 5}, "another environment type"},
+			{C16CallA{Xs: []int{4}, K: 7}, "the first type again, another value"}}},
+		{"function member of two map values", "count(Xs, {F(#) > 50 and 100 % # >= 0})", []step{
+			{map[string]interface{}{"Xs": []int{7, 0}, "F": fnA}, "fails inside the loop"},
+			{map[string]interface{}{"Xs": []int{7, 8}, "F": fnB}, "another function under the same name"},
+			{map[string]interface{}{"Xs": []int{1, 9}, "F": fnA}, "the first function again"}}},
+		{"nested loops", "map(Xs, {count(Xs, {Weight(#) > 5}) + 100 % #})", []step{
+			{C16CallA{Xs: []int{3, 0}, K: 10}, "fails in the outer loop after the inner loop called Weight"},
+			{C16CallA{Xs: []int{3, 4}, K: 1}, "same type, another value"}}},
+	}
+	for _, h := range histories {
+		machine := &vm.VM{}
+		for si, st := range h.steps {
+			rep.Evaluations++
+			rep.hist("reused VM after a failing run inside a loop")
+			prog, err := expr.Compile(h.src, expr.Env(st.env))
+			if err != nil {
+				rep.fail(Failure{Key: "C16-unsound", What: "the reused-VM history does not compile", Input: map[string]interface{}{"history": h.name, "src": h.src, "step": si}, Got: err.Error()})
+				break
+			}
+			run := func(m *vm.VM) string {
+				var out interface{}
+				var rerr error
+				func() {
+					defer func() {
+						if r := recover(); r != nil {
+							rerr = fmt.Errorf("panic: %v", r)
+						}
+					}()
+					out, rerr = m.Run(prog, st.env)
+				}()
+				if rerr != nil {
+					return "error: " + strings.SplitN(rerr.Error(), "\n", 2)[0]
+				}
+				return fmt.Sprintf("%v", out)
+			}
+			want := run(&vm.VM{})
+			got := run(machine)
+			if got != want {
+				rep.fail(Failure{Key: "C16-unsound", What: "an accepted function name resolves on an EARLIER run's environment when the VM is reused after a run that failed inside a loop",
+					Input: map[string]interface{}{"history": h.name, "src": h.src, "step": si + 1, "note": st.note}, Want: "as on a fresh VM: " + want, Got: got})
+				break
+			}
+		}
+	}
 }
